@@ -176,24 +176,37 @@ example : 0 < 2 * ekin (fun _ => (1 : ℝ)) (mbDraw (n := 1) (fun _ => 1) 1 (fun
 
 /-! ## the kinetic energy that enters the acceptance test -/
 
-/-- **ke_reference_fresh**: when `HamiltonianDisplacementMove.attempt_displacement` (momentum sampling on)
+/-- **ke_reference_fresh**: when `HamiltonianDisplacementMove.attempt_displacement` (momentum sampling on) is
+    called with a kinetic reference that is current — `context.last_kinetic_energy` is the kinetic energy of the
+    momenta the atoms carry, which is what the constructor, `save_state`, `revert_state` and
+    `validate_simulation` leave (`QProps/C14k.lean`, `reference_established`, `reference_between_trials`) — and
     returns `True`, it did so in attempt `j` — the first attempt whose `check_move` verdict is not a veto —,
     `context.last_kinetic_energy` is the kinetic energy of the momenta drawn **in that attempt** (also when
     earlier attempts were vetoed), and the proposed state is the trajectory started from the original
     positions with exactly those momenta.  Holds for every force field, constraint set, `dt`, step count,
-    forced or unforced refresh. -/
+    forced or unforced refresh.  Without the hypothesis (a member of a composite called after other members):
+    `ke_reference_carried` in `QProps/C14k.lean`. -/
 theorem ke_reference_fresh (g : HCfg n ℝ) (maxAttempts : ℕ) (zs : List (Arr n ℝ)) (checks : List Bool)
-    (c c' : HCtx n ℝ) (h : attemptDisplacement g true maxAttempts zs checks c = (true, c')) :
+    (c c' : HCtx n ℝ) (href : c.lastKE = ekin g.m c.p)
+    (h : attemptDisplacement g true maxAttempts zs checks c = (true, c')) :
     ∃ j, j < maxAttempts ∧ checks.getD j true = true ∧ (∀ l, l < j → checks.getD l true = false) ∧
       c'.lastKE = ekin g.m (g.draw c.q (zs.getD j Arr.zero)) ∧
-      (⟨c'.q, c'.p⟩ : St n ℝ) = g.run ⟨c.q, g.draw c.q (zs.getD j Arr.zero)⟩ :=
-  attemptLoop_fresh g ⟨c.q, c.p⟩ maxAttempts zs checks c c' rfl h
+      (⟨c'.q, c'.p⟩ : St n ℝ) = g.run ⟨c.q, g.draw c.q (zs.getD j Arr.zero)⟩ := by
+  obtain ⟨j, h1, h2, h3, h4, h5⟩ :=
+    attemptLoop_fresh g ⟨c.q, c.p⟩ c.lastKE (ekin g.m c.p) maxAttempts zs checks c c' rfl h
+  refine ⟨j, h1, h2, h3, ?_, h5⟩
+  rw [h4, href]
+  ring
 
 /-- a call whose attempts are all vetoed restores positions and momenta -/
 theorem attempt_failed_restores (g : HCfg n ℝ) (sample : Bool) (maxAttempts : ℕ) (zs : List (Arr n ℝ))
     (checks : List Bool) (c c' : HCtx n ℝ)
     (h : attemptDisplacement g sample maxAttempts zs checks c = (false, c')) : c'.q = c.q ∧ c'.p = c.p :=
-  attemptLoop_failed g sample ⟨c.q, c.p⟩ maxAttempts zs checks c c' rfl rfl h
+  let r := attemptLoop_failed g sample ⟨c.q, c.p⟩ c.lastKE (ekin g.m c.p) maxAttempts zs checks c c' rfl rfl rfl h
+  ⟨r.1, r.2.1⟩
+
+/-- non-vacuity of the hypothesis of `ke_reference_fresh`: a context just constructed satisfies it -/
+example (g : HCfg n ℝ) (q p : Arr n ℝ) : (HCtx.fresh g.m q p).lastKE = ekin g.m (HCtx.fresh g.m q p).p := rfl
 
 /-- non-vacuity: a call that succeeds in its second attempt after a vetoed first one -/
 example (g : HCfg 1 ℝ) (c : HCtx 1 ℝ) (z0 z1 : Arr 1 ℝ) :
